@@ -19,7 +19,7 @@ ID = "C08"
 MANIFEST = {
     "category": "exploration",
     "text": "Generated-input search: Boolean expressions over up to 6 format-constraint keys (n-ary U/O/X, nesting, every operator spelling, whitespace, redundant brackets) x all 2^n truth assignments, through evaluate_format_constraint_tree, format_constraint_evaluation with DictBasedFcEvaluator with a plain FcEvaluator subclass (sync and async evaluate_ methods returning (False, None)) and with one whose coroutines really suspend and complete in reverse order. The result must equal the Boolean value of the AST and carry an error message iff it is unfulfilled; None and '' must give (True, None).",
-    "note": "Trusted: ref.bool_eval and the generator. Precondition of the statement is built into the generator: unfulfilled single constraints carry a message (or get the default one), fulfilled ones carry none. Bounded: <= 12/24 atoms, <= 6 keys.",
+    "note": "Trusted: ref.bool_eval and the generator. Precondition of the statement is built into the generator: unfulfilled single constraints carry a message (or get the default one), fulfilled ones carry none. Bounded: <= 12/24 atoms, <= 6 keys. Process configuration by shard (vlib/sut.py; recorded in replay files): plain / parse caches preheated beyond their size / warnings attributed to ahbicht raised as errors / logging fully enabled with every record rendered.",
     "technique": "property-based testing against a Boolean reference evaluator, exhaustive over truth assignments per expression",
 }
 LEVEL = "exploration"
